@@ -536,6 +536,9 @@ func VH_C14_LongString(n, pos, large int) {
 		doc = &jv{kind: jArray, kids: []*jv{jScalar(jLiteral), sc}}
 	case 2:
 		doc = &jv{kind: jObject, kids: []*jv{sc}, keys: [][]byte{vhBytes(2)}}
+	case 3:
+		// an out-of-line value BEHIND the long string: its offset lies beyond the string
+		doc = &jv{kind: jArray, kids: []*jv{sc, &jv{kind: jString, str: vhBytes(2)}, &jv{kind: jInt64, u: vhU64()}}}
 	}
 	w := &vw{}
 	w.u8(jTypeByte(doc, large == 1))
